@@ -84,8 +84,10 @@ def remove_empty_metadata(a: ast.AST) -> ast.AST:
             assert isinstance(n, ast.Call)
             if isinstance(n.func, ast.Name) and n.func.id == "MetaData":
                 if len(n.args) == 2:
-                    d = ast.literal_eval(n.args[1])
-                    if isinstance(d, dict) and len(d) == 0:
+                    # Look at the shape only: the argument of a wrapper that is not empty need
+                    # not be something `literal_eval` can read.
+                    d = n.args[1]
+                    if isinstance(d, ast.Dict) and len(d.keys) == 0:
                         return n.args[0]
             return n
 
